@@ -208,7 +208,12 @@ Definition audit_db (fuel : nat) (dblk : Z) : list complaint * list (Z * Z) * Z 
     let prevs := dblk :: l0 in
     let back := concat (map (fun ps => if s_p0 (snd ps) =? fst ps then [] else [CBackLink (s_blk (snd ps))])
                             (combine prevs nodes)) in
-    let tailc := if u32 (a + DOFF_P0_U4) =? last l0 0 then [] else [CBackLink dblk] in
+    (* the tail link names the last node; with no node it is 0 or the head block itself (_sblk_at2 reads 0 as the head) *)
+    let tailp := u32 (a + DOFF_P0_U4) in
+    let tailc := match l0 with
+                 | [] => if (tailp =? 0) || (tailp =? dblk) then [] else [CBackLink dblk]
+                 | _ => if tailp =? last l0 0 then [] else [CBackLink dblk]
+                 end in
     (* level chains = sublists of the level-0 chain with lvl >= i; counters = nodes with lvl = i *)
     let lvls := seq 0 NSLEV in
     let lvlc := concat (map (fun i =>
